@@ -525,6 +525,9 @@ SPECS["C08"] = {
         {"name": "H4-lenient-forms", "pkg": "parser", "files": ["parser/c08.go"], "fn": "VerifC08LenientForms",
          "what": "33 lenient source forms (optional/dangling separators, parentheses, one-line blocks) and all except-clause shapes (0..2 names x comma/blank x 4 binders)", "reach": ["parsed", "reparsed"],
          "quick": {"unwind": 60, "wall_s": 900}, "thorough": {"unwind": 60, "wall_s": 1800}},
+        {"name": "H6-comments", "pkg": "parser", "files": ["parser/c08.go"], "fn": "VerifC08Comments",
+         "what": "12 statement kinds x a comment of 7 forms (or a bare line break) inserted at every token boundary", "reach": ["parsed", "reparsed"],
+         "quick": {"unwind": 60, "wall_s": 900}, "thorough": {"unwind": 60, "wall_s": 1800}},
         {"name": "H5-format-files", "pkg": "cli/tool", "files": ["tool/memfs.go", "tool/c08.go"], "fn": "VerifC08FormatFiles",
          "what": "the real FormatFiles (filepath.Walk, ReadFile, Parse, PrettyPrint, WriteFile - all real code) over an in-memory directory tree: padded ECAL file (formatted text shorter / equal / longer than the original), second file, unparsable file, other extension; run twice",
          "reach": ["formatted", "formatted-twice"],
